@@ -64,6 +64,10 @@ func runC09(c *core.Ctx) {
 	kind := c09Kinds[t.Intn(len(c09Kinds))]
 	opts := drawPayloaderOpts(t, kind)
 	mtu := opts.minMTU() + []int{8, 2, 30, 1188, 100}[t.Intn(5)] + t.Intn(8)
+	if (kind == kAV1Dep || kind == kAV1Pkt) && t.Chance(1, 150) {
+		mtu = 65535 // jumbo: OBUs around 2 MiB travel in a few dozen packets
+		c.Probe("jumbo-mtu")
+	}
 	cfg := drawWireCfg(t, c.Config)
 	loop := core.NewLoop(c, 5000)
 	zeroAlloc := t.Chance(1, 5)
